@@ -22,13 +22,14 @@ def py_symbol(terms, k, L):
 
 
 def stable_for(spec, dt):
-    """skip configurations that overflow by design (growth·dt huge for anti-diffusive random coefficients)"""
+    """skip configurations in which rounding noise is amplified beyond a rounding-level comparison: the fastest-growing
+    wavenumber vector of the WHOLE grid (anti-diffusion when dt < 0, anisotropic / matrix coefficients included) must not
+    grow by more than e^10 per step — model and implementation amplify their own rounding errors by that factor"""
+    import itertools
     N, D, L = spec.N, spec.D, spec.L
-    kmax = N // 2
-    worst = 0.0
-    for k in [tuple([kmax] * D), tuple([1] * D), tuple([kmax] + [0] * (D - 1))]:
-        worst = max(worst, (py_symbol(spec.lin[0], k, L) * dt).real)
-    return worst < 50.0
+    kk = [int(np.fft.fftfreq(N, 1 / N)[i]) for i in range(N)]
+    worst = max((py_symbol(spec.lin[0], list(k), L) * dt).real for k in itertools.product(kk, repeat=D))
+    return worst < 10.0
 
 
 def correspondence(ctx):
